@@ -49,6 +49,10 @@ def run(ctx) -> None:
     ctx.guard("C02.ctor", ctor)
     ctx.guard("C02.no-swallow", no_swallow)
     ctx.guard("C02.funnel", funnel)
+    from . import c03
+
+    ctx.reuse("C02.funnel", c03.check_before_emit)
+    ctx.guard("C02.exception-total", exception_total)
 
 
 # ----------------------------------------------------------------------------- owner
@@ -620,6 +624,47 @@ def _catches_volume_violation(ctx, fv, h: ast.ExceptHandler) -> bool:
             if r is vv or r in ctx.prog.mro(vv) or vv in ctx.prog.mro(r):
                 return True
     return False
+
+
+# ----------------------------------------------------------------------------- exception constructors
+def exception_total(ctx) -> None:
+    """Raising VolumeOverflowError / VolumeUnderflowError cannot itself fail: their constructors build the message from the
+    arguments with f-strings only; `str.format` / `%` applied to a string that contains an argument (the free-text label)
+    re-interprets braces / percent signs in it and raises KeyError / IndexError / ValueError instead of the violation."""
+    rule = "C02.exception-total"
+    vv = ctx.prog.require_class("VolumeViolationException", rule)
+    n = 0
+    for m in ctx.prog.modules.values():
+        for cls in m.classes.values():
+            if vv not in ctx.prog.mro(cls):
+                continue
+            init = cls.methods.get("__init__")
+            if init is None:
+                continue
+            n += 1
+            ctx.rep.touch(init)
+            fv = ctx.fv(init)
+            params = set(init.params[1:])
+            bad = None
+            for sub_ in own_walk(init.node):
+                tmpl = None
+                if isinstance(sub_, ast.Call) and isinstance(sub_.func, ast.Attribute) and sub_.func.attr in ("format", "format_map"):
+                    tmpl = sub_.func.value
+                elif isinstance(sub_, ast.BinOp) and isinstance(sub_.op, ast.Mod) and not isinstance(sub_.left, ast.Constant):
+                    tmpl = sub_.left
+                if tmpl is None or isinstance(tmpl, ast.Constant):
+                    continue
+                t = fv.res.resolve(tmpl, fv.node_of(sub_))
+                tainted = sorted({x.id for x in ast.walk(t) if isinstance(x, ast.Name) and x.id in params})
+                if tainted:
+                    bad = (sub_, tainted)
+            c = f"{cls.name}.__init__"
+            if bad:
+                ctx.rep.refuted(rule, c, f"`{stmt_key(bad[0])[:70]}` formats a template that already contains the argument(s) {bad[1]}: braces/percent signs in that text (e.g. a label "
+                                f"like 'dilution {{1:10}}') make the constructor raise KeyError/IndexError, so the operation fails with that instead of {cls.name}", where=init.where(bad[0]))
+            else:
+                ctx.rep.holds(rule, c, "message is built without re-formatting argument text", where=init.where())
+    ctx.rep.floor(rule, "constructors of volume-violation exceptions", n, 1)
 
 
 # ----------------------------------------------------------------------------- funnel
